@@ -667,6 +667,10 @@ package jsonpatch
 //@   invariant tree: noNullKids()
 
 //@ func merge
+//@   bind e1 = intoDoc#1.1
+//@   bind e2 = intoDoc#2.1
+//@   ensures[C02,C07] a-non-object-is-replaced-by-the-patch: (reached(intoDoc#1) && e1 != nil) || (reached(intoDoc#2) && e2 != nil) ==> result == patch
+//@   ensures[C02,C07] two-objects-are-merged-in-place: reached(intoDoc#2) && e2 == nil ==> result == cur && reached(mergeDocs#1)
 //@   callees[C02,C07] intoDoc, pruneNulls, mergeDocs
 //@   callsite[C02,C07] pruneNulls#1 prunes-only-a-patch-that-replaces-a-non-object: err != nil
 //@   requires nodes: cur != nil && patch != nil && childOK(cur) && childOK(patch) && options != nil
